@@ -170,9 +170,28 @@ def run_case(case, workdir):
         if cfg["bounded"] is not None:
             u = (xn - lo) / (hi - lo)
             edge = np.any((u < 1e-5) | (u > 1 - 1e-5), axis=1)
+            if bits == 32:
+                # float32 arithmetic of erfinv / logit loses more than the comparison tolerance far out in the tails
+                # (1-u is resolved to ~6e-8 only): those draws are counted, not judged
+                yref, _ = RefPrior(cfg["bounded"], lo, hi, 0.0, 1.0).phi(xn)
+                edge |= np.any(np.abs(yref) > (2.75 if cfg["bounded"] == "probit" else 6.0), axis=1)
         else:
             edge = np.zeros(len(xn), bool)
-        ok = np.isclose(lqn, lpn, **tol) | ~fin | edge
+        probes["draws_in_float_unresolvable_tail"] = probes.get("draws_in_float_unresolvable_tail", 0) + int(edge.sum())
+        if b == 0:
+            edge0 = edge
+        extra = np.zeros(len(xn))
+        if bits == 32:
+            # float32: log_q is computed at the flow's internal point and x is then rounded; allow what one
+            # float32 ulp of x moves log_prob (large in the tails of a probit/logit map)
+            for j in range(xn.shape[1]):
+                for sgn in (-1.0, 1.0):
+                    xs = xn.copy()
+                    xs[:, j] = xs[:, j] + sgn * 2.0 * np.spacing(np.abs(xs[:, j]).astype(np.float32)).astype(np.float64)
+                    with np.errstate(all="ignore"):
+                        dv = np.abs(np.asarray(to_np(flow.log_prob(xs.astype(np.float32))), dtype=np.float64) - lpn)
+                    extra = np.maximum(extra, np.where(np.isfinite(dv), dv, np.inf))
+        ok = (np.abs(lqn - lpn) <= tol["atol"] + tol["rtol"] * np.abs(lpn) + 3.0 * extra) | ~fin | edge
         if not np.all(ok):
             i = int(np.flatnonzero(~ok)[0])
             V.append(violation(
@@ -200,8 +219,17 @@ def run_case(case, workdir):
         lp2 = np.asarray(to_np(flow2.log_prob(x)), dtype=np.float64)
         lp1 = np.asarray(to_np(flow.log_prob(x)), dtype=np.float64)
         t2 = dict(rtol=1e-3, atol=1e-3) if bits == 32 else dict(rtol=1e-6, atol=1e-6)
-        fin = np.isfinite(lp1) & np.isfinite(lp2)
-        if not np.allclose(lp1[fin], lp2[fin], **t2):
+        fin = np.isfinite(lp1) & np.isfinite(lp2) & ~edge0
+        sens = np.zeros(len(lp1))
+        if bits == 32:
+            for j in range(xn.shape[1]):
+                for sgn in (-1.0, 1.0):
+                    xs = xn.copy()
+                    xs[:, j] = xs[:, j] + sgn * 2.0 * np.spacing(np.abs(xs[:, j]).astype(np.float32)).astype(np.float64)
+                    with np.errstate(all="ignore"):
+                        dv = np.abs(np.asarray(to_np(flow.log_prob(xs.astype(np.float32))), dtype=np.float64) - lp1)
+                    sens = np.maximum(sens, np.where(np.isfinite(dv), dv, np.inf))
+        if not np.all(np.abs(lp1[fin] - lp2[fin]) <= t2["atol"] + t2["rtol"] * np.abs(lp1[fin]) + 3.0 * sens[fin]):
             V.append(violation("c03.reload", f"{cfg['backend']} flow ({cfg}): after save/load the flow gives a different log_prob on its own draws "
                                f"(max dev {float(np.max(np.abs(lp1[fin] - lp2[fin])))})", where))
         probes["reload_cycles"] = 1
